@@ -7,7 +7,7 @@
     (ConvertColumn), query column -> star result (star_columns) — so a star or a
     plain reference cannot change a type, whatever DDL history produced the
     catalog column (the history is C08's business). *)
-From Verif Require Import Model.Compile Spec.PgScope Judge.JQ Judge.J02 Proofs.ColumnsFacts.
+From Verif Require Import Model.Compile Spec.PgScope Judge.JQ Judge.J02 Proofs.ColumnsFacts Proofs.TypeFlowFacts.
 Open Scope string_scope.
 Open Scope list_scope.
 
@@ -31,3 +31,30 @@ Theorem C05_star_partial : forall res tables ref,
          (star_columns res tables ref).
 Proof. exact star_preserves_types. Qed.
 Print Assumptions C05_star_partial.
+
+(** a plain reference (directly, or qualified by a table name / alias): the one
+    result column carries the data type, nullability, array-ness and owning
+    table of the one candidate column in scope, and its name unless renamed
+    with AS *)
+Theorem C05_ref_partial : forall res tables ref alias name cols,
+  ref_name_alias ref = Some (alias, name) ->
+  output_column_refs res tables ref = Ok cols ->
+  exists c, ref_candidates tables alias name = [c] /\
+    cols = [mkQC (some_or (qc_name c) (res_name res)) (qc_dt c) (qc_nn c) (qc_arr c) "" (qc_table c)].
+Proof. exact ref_preserves_types. Qed.
+Print Assumptions C05_ref_partial.
+
+(** a catalog table seen through the query catalog, under an alias or not, and
+    a CTE re-homed to its name: same columns, same attributes *)
+Theorem C05_catalog_table_partial : forall e rel t qt,
+  cat_get_table (env_cat e) rel = Some t -> qc_get_table e [] rel = Ok qt ->
+  map attrs (qt_cols qt) = map (fun c => (data_type (col_type c), col_notnull c, col_array c)) (tab_cols t)
+  /\ map qc_name (qt_cols qt) = map col_name (tab_cols t).
+Proof. exact catalog_table_columns. Qed.
+Print Assumptions C05_catalog_table_partial.
+
+Theorem C05_cte_partial : forall rel cols,
+  let cols' := map (fun x => mkQC (qc_name x) (qc_dt x) (qc_nn x) (qc_arr x) (qc_scope x) (Some rel)) cols in
+  map attrs cols' = map attrs cols /\ map qc_name cols' = map qc_name cols.
+Proof. exact cte_rehome_attrs. Qed.
+Print Assumptions C05_cte_partial.
